@@ -67,15 +67,11 @@ type harness struct {
 }
 
 func (h *harness) bad(level, acc, d string, c *blockCase, be string, extra string) {
-	kinds := ""
-	if c != nil && len(c.Kinds) > 0 && len(c.Kinds) <= 1 {
-		kinds = " kind=" + c.Kinds[0]
-	}
 	label := ""
 	if c != nil {
 		label = c.Label
 	}
-	h.r.Violate(fmt.Sprintf("%s/%s %s%s", level, acc, normPath(d), kinds), map[string]any{"backend": be, "case": label, "diff": d, "note": extra})
+	h.r.Violate(fmt.Sprintf("%s/%s %s", level, acc, normPath(d)), map[string]any{"backend": be, "case": label, "diff": d, "note": extra})
 }
 
 // got is everything read back for one block.
